@@ -193,6 +193,63 @@ def program_directories(ctx, root, decoy, leg):
     ctx.legs.append("program-directories")
 
 
+def resupply(ctx, root, decoy, leg):
+    """a library that has been imported (or has failed to import) is supplied again with another definition, through register_library_factory or through
+    an appended LibraryLoader: the next import follows the definition that is current then"""
+    versions = {"healthy": "(define-library (g a) (export va) (begin (define va 10)))", "changed": "(define-library (g a) (export va) (begin (define va 77)))",
+                "faulting": "(define-library (g a) (export va) (begin (define va no-such-variable-a)))", "selfloop": "(define-library (g a) (import (g a)) (export va) (begin (define va 10)))"}
+    want = {"healthy": ("ok", 10), "changed": ("ok", 77), "faulting": ("err", "Logic.UnboundedSymbol"), "selfloop": ("err", "Logic.LibraryImportCyclic")}
+    jobs, meta = [], []
+    os.makedirs(os.path.join(root, "empty"), exist_ok=True)
+    for api in ("register", "append_loader"):
+        for k1 in versions:
+            for k2 in versions:
+                for k3 in (None, "healthy", "faulting"):
+                    seq = [k1, k2] + ([k3] if k3 else [])
+                    steps = [{"new": {"stdlib": False, "natives": False, "progdir": os.path.join(root, "empty"), "libs": [{"name": ["g", "a"], "src": versions[k1]}]}}]
+                    for i, k in enumerate(seq):
+                        if i > 0:
+                            steps.append({"it": 0, api: {"name": ["g", "a"], "src": versions[k]}})
+                        steps.append({"it": 0, "src": "(import (g a))"}); steps.append({"it": 0, "env_names": True})
+                    jobs.append({"id": "c14rs", "interps": [], "steps": steps, "fuel": 50000}); meta.append((api, seq))
+    recs = core.run_jobs(jobs, leg, timeout=900, tag="c14rs", env_extra={"__cwd": decoy})
+    for (api, seq), rec, job in zip(meta, recs, jobs):
+        if rec is None or "steps" not in rec:
+            ctx.inconclusive_cases += 1; continue
+        st = rec["steps"]
+        pos = 1
+        last_ok = None
+        good = True
+        for i, k in enumerate(seq):
+            if i > 0:
+                if "ok" not in st[pos]:
+                    ctx.violation({"what": "supplying a library again failed", "kind": "resupply", "api": api, "sequence": seq, "observed": st[pos], "dedupe": "rs-reg|" + api}, {"sequence": seq, "api": api})
+                    good = False; break
+                pos += 1
+            imp, names = st[pos], st[pos + 1]; pos += 2
+            ctx.evaluations += 1
+            kind, val = core.outcome(imp)
+            wk, wv = want[k]
+            d = {"kind": "resupply", "api": api, "sequence": seq, "attempt": i, "version": k}
+            if wk == "ok":
+                kn, nv = core.outcome(names)
+                if kind != "ok" or not isinstance(nv, dict) or nv.get("va") != {"i": wv}:
+                    ctx.violation(dict(d, what="after a library was supplied again the import does not follow its current definition", expected="va = %d" % wv,
+                                       observed=(nv if kind == "ok" else val), dedupe="rs|%s|%s" % (api, k)), {"sequence": seq, "api": api})
+                    good = False; break
+                last_ok = wv
+            else:
+                if kind != "err" or not str(val.get("kind", "")).startswith(wv):
+                    ctx.violation(dict(d, what="after a library was supplied again the import does not follow its current definition", expected=wv,
+                                       observed=(val if kind != "ok" else "import succeeded"), dedupe="rs|%s|%s" % (api, k)), {"sequence": seq, "api": api})
+                    good = False; break
+            if imp.get("inprog"):
+                ctx.violation(dict(d, what="a library is still marked 'being imported' after the import returned", marks=imp["inprog"], dedupe="rs-inprog"), {"sequence": seq}); good = False; break
+        if good:
+            ctx.count("resupply_histories"); ctx.nontriv("rs|%s|%s" % (api, "/".join(seq)))
+    ctx.legs.append("resupply")
+
+
 def run(tier, seed):
     ctx = core.Ctx(PID, tier, seed, LEVEL)
     rng = ctx.rng
@@ -385,6 +442,7 @@ def run(tier, seed):
             ctx.nontriv(json.dumps([mode, adj, kinds]))
     ctx.legs.append(leg)
     program_directories(ctx, root, decoy, leg)
+    resupply(ctx, root, decoy, leg)
     for (mode, n, adj, kinds, hist) in meta[:3] + meta[-2:]:
         ctx.sample({"mode": mode, "imports": {NAMES[i]: [NAMES[j] for j in adj[i]] for i in range(n)}, "kinds": list(kinds), "histories": len(hist)})
     shutil.rmtree(root, ignore_errors=True)
